@@ -82,6 +82,10 @@ PRODUCTIONS = [
     ('LS', 'split({S}, {S})'), ('LS', 'split({S})'), ('LS', 'keys({D})'), ('LS', 'map({LN}, v => str(v))'), ('LS', 'sorted({LS})'),
     ('LS', '{LS} + {LS}'), ('LS', 'map({LS}, upper)'), ('LS', 'map({S}, c => c + c)'), ('LS', 'map({D}, (k, v) => k + v)'),
     ('LS', 'reversed({LS})'), ('LS', 'sorted({LS}, None, True)'), ('LS', 'sorted({LS}, v => len(v))'),
+    # ties under the key: the sort is stable, also when reversed
+    ('LS', 'sorted(["bb", "a", "cc", "dd", {S}], v => len(v), True)'), ('LS', 'sorted({LS} + ["x", "y"], v => 0, True)'),
+    ('LN', 'sorted([1, 1.0, 0, 1.00, {N}], None, True)'), ('LN', 'sorted([2.0, 2, 2.00], v => 0 - v)'), ('T', 'sorted(items({D}), p => 0, True)'),
+    ('T', 'sorted(enumerate({LS}), p => len(p[1]), True)'),
     ('D', '⟦{K}: {N}, {K}: {N}⟧'), ('D', 'dict({D})'), ('D', '⟦{N}: {N}⟧'), ('D', '⟦"k": {N}, "l": {LN}⟧'), ('D', '⟦{B}: {N}, {O}: {S}⟧'),
     ('T', 'items({D})'), ('T', 'enumerate({LN})'), ('T', 'enumerate({S})'), ('T', 'map({LN}, v => [v, {N}])'), ('T', '[{LN}, {D}, {S}]'),
     # trailing commas in the three call syntaxes: the arguments still count
@@ -100,6 +104,9 @@ STATEMENTS = [
     'f = v => v + {N}; f({N})', 'f = (a, b) => a + b; f({N}, {N})', 'f = v => v + n; n = {N}; f(1)', 'f = v => {N}; g = v => f(v) + v; g({N})',
     'f = v => v * 2; map({LN}, f)', 'f = v => x; x = {N}; f(0)', 'f = x => x + 1; x = {N}; f(1) + x', 'f = v => {LN}; f(0)[{I}]',
     'x = {LN}; y = x; push(y, {N}); x', 'x = {D}; y = x; y["q"] = {N}; [x, y]', 'x = {LL}; y = x[{I}]; push(y, {N}); x',
+    # one container occurring twice inside an assigned value stays ONE container in the copy
+    'x = {LN}; y = [x, x]; y[0][0] = {N}; y', 'x = {LN}; y = ⟦"a": x, "b": x⟧; push(y["a"], {N}); [y, x]', 'x = [{LN}]; y = [x, [x]]; y[1][0][0][0] = 9; y',
+    'x = {LL}; y = [x[0], x[0], x]; y[0][0] = {N}; y[2]', 'x = {LN}; z = [[x, x]]; z[0][1][0] += 1; z',
     'x = {N}\ny = x + {N}\n[x, y]', 'x = {LN};; y = {N};\nx + [y]', 'x = [{N}, {S}]; x[0] = x[1]; x', 'x = ⟦"a": {LN}⟧; x["a"][{I}] = {N}; x',
     'x = {N}; x = x + x; x = x * x; x', 'len = {N}; len + 1', 'l = {LN}; l', 'x = {LN}; x[{I}] = 1', 'x = {D}; x[{K}] += 1',
     'mk = a => (b => a + b); add = mk(1); a = {N}; add({N})', 'mk = a => (b => a + b); add = mk({N}); add(5)',
